@@ -88,6 +88,19 @@ var vdg struct {
 	datagrams     [][]byte
 	timeouts      int
 	sentAtTimeout int
+	flightStart   int   // number of datagrams sent before the endpoint's current flight began
+	script        []int // when set, the peer follows this script of message kinds instead of choosing
+	scriptPos     int
+	flushed       bool // the endpoint has just flushed a flight and not yet waited for the answer
+	armedAtWait   []bool
+}
+
+func verifCat(ds [][]byte) []byte {
+	var out []byte
+	for _, d := range ds {
+		out = append(out, d...)
+	}
+	return out
 }
 
 func vgNote(k int) {
@@ -213,7 +226,17 @@ func rawOf(typ uint8) []byte {
 }
 
 func (c *Conn) readHandshake(transcript transcriptHash) (interface{}, error) {
-	k := verifSplitInt("kind", 0, 9)
+	verifDriverWaiting(c)
+	var k int
+	if vdg.script != nil {
+		if vdg.scriptPos >= len(vdg.script) {
+			return nil, errors.New("end of script")
+		}
+		k = vdg.script[vdg.scriptPos]
+		vdg.scriptPos++
+	} else {
+		k = verifSplitInt("kind", 0, 9)
+	}
 	if k == kErr {
 		return nil, errors.New("read error")
 	}
@@ -255,6 +278,7 @@ func (c *Conn) readHandshake(transcript transcriptHash) (interface{}, error) {
 		m = &certificateRequestMsg{raw: rawOf(typeCertificateRequest), certificateTypes: []byte{1, 64}}
 	case kSHD:
 		m = &serverHelloDoneMsg{}
+		vdg.flightStart = len(vdg.datagrams) // the client's second flight follows
 	case kFin:
 		fm := &finishedMsg{raw: rawOf(typeFinished), verifyData: verifNondetBytes("fin", verifSplitInt("finlen", 11, 12))}
 		vg.finIn = fm.verifyData
@@ -303,6 +327,7 @@ func (c *Conn) readHandshake(transcript transcriptHash) (interface{}, error) {
 }
 
 func (c *Conn) readChangeCipherSpec() error {
+	verifDriverWaiting(c)
 	hi := 1
 	if verifDatagramStack && c.isClient && vdg.timeouts == 0 {
 		hi = 2 // datagram stack: the read may time out once (the peer's flight, or ours, was lost)
@@ -529,7 +554,10 @@ func VerifHarness_client_handshake() {
 		// resend except the ClientHello; the server, which is one flight ahead, retransmits)
 		// C19: a timeout while waiting for the peer's last flight makes the client resend its own last flight,
 		// byte for byte, as the next datagram
+		// — the WHOLE flight (Certificate*, ClientKeyExchange, CertificateVerify*, ChangeCipherSpec, Finished), whatever
+		// the packing into datagrams: any of its datagrams may be the one that was lost
 		k := vdg.sentAtTimeout
-		verifAssert("C19.react.timeoutResendsLastFlight", k >= 1 && len(vdg.datagrams) > k && len(vdg.datagrams[k]) > 0 && bytes.Equal(vdg.datagrams[k], vdg.datagrams[k-1]))
+		verifAssert("C19.react.timeoutResendsLastFlight", k >= 1 && len(vdg.datagrams) > k && vdg.flightStart < k &&
+			bytes.Equal(verifCat(vdg.datagrams[k:]), verifCat(vdg.datagrams[vdg.flightStart:k])))
 	}
 }
